@@ -241,6 +241,7 @@ fn search(unit: &str, depth: usize) -> Value {
             }
         }
         "column" => return col::column(depth),
+        "sqlddl" => return sql::ddl(depth),
         "sqlexpr" => return sql::expr(depth),
         "sqlorder" => return sql::order(depth),
         "sqlrange" => return sql::range(depth),
